@@ -130,7 +130,7 @@ def classify(call_node):
 
 
 # ------------------------------------------------------------------ rust_base helpers
-@contract(B + "RustBaseAnalyzer.extract_node_text", props=["C17", "C12", "C02"], types=dict(node=TSNode), returns=Str)
+@contract(B + "RustBaseAnalyzer.extract_node_text", props=["C17", "C12", "C02", "C11", "C13", "C19"], types=dict(node=TSNode), returns=Str)
 class ExtractNodeText:
     def requires(node):
         return node is not None
@@ -140,7 +140,7 @@ class ExtractNodeText:
 
 
 # ------------------------------------------------------------------ analyzer helpers
-@contract(F + "_get_field_expression", props=["C17"], types=dict(call_node=TSNode), returns=TSNode)
+@contract(F + "_get_field_expression", props=["C17", "C11", "C13", "C19"], types=dict(call_node=TSNode), returns=TSNode)
 class GetFieldExpression:
     def requires(call_node):
         return call_node is not None
@@ -152,7 +152,7 @@ class GetFieldExpression:
         return first_of_type(call_node.children, "field_expression") == first_of_type(rest, "field_expression")
 
 
-@contract(F + "_get_receiver_node", props=["C17"], types=dict(field_expr=TSNode), returns=TSNode)
+@contract(F + "_get_receiver_node", props=["C17", "C11", "C13", "C19"], types=dict(field_expr=TSNode), returns=TSNode)
 class GetReceiverNode:
     def requires(field_expr):
         return field_expr is not None
@@ -161,7 +161,7 @@ class GetReceiverNode:
         return field_expr.children[0] if len(field_expr.children) > 0 else None
 
 
-@contract(F + "RustCloneAnalyzer._extract_field_identifier", props=["C17"], types=dict(field_expr=TSNode), returns=Str)
+@contract(F + "RustCloneAnalyzer._extract_field_identifier", props=["C17", "C11", "C13", "C19"], types=dict(field_expr=TSNode), returns=Str)
 class ExtractFieldIdentifier:
     def requires(field_expr):
         return field_expr is not None
@@ -173,7 +173,7 @@ class ExtractFieldIdentifier:
         return first_of_type(field_expr.children, "field_identifier") == first_of_type(rest, "field_identifier")
 
 
-@contract(F + "RustCloneAnalyzer._get_method_name", props=["C17"], types=dict(call_node=TSNode), returns=Str)
+@contract(F + "RustCloneAnalyzer._get_method_name", props=["C17", "C11", "C13", "C19"], types=dict(call_node=TSNode), returns=Str)
 class GetMethodName:
     def requires(call_node):
         return call_node is not None
@@ -185,7 +185,7 @@ class GetMethodName:
         return first_of_type(call_node.children, "field_expression") == first_of_type(rest, "field_expression")
 
 
-@contract(F + "RustCloneAnalyzer._is_inside_loop", props=["C17"], types=dict(node=TSNode), returns=Bool)
+@contract(F + "RustCloneAnalyzer._is_inside_loop", props=["C17", "C11", "C13", "C19"], types=dict(node=TSNode), returns=Bool)
 class IsInsideLoop:
     def requires(node):
         return node is not None
@@ -200,7 +200,7 @@ class IsInsideLoop:
         return ts_depth(current)
 
 
-@contract(F + "RustCloneAnalyzer._is_chained_clone", props=["C17"], types=dict(node=TSNode), returns=Bool)
+@contract(F + "RustCloneAnalyzer._is_chained_clone", props=["C17", "C11", "C13", "C19"], types=dict(node=TSNode), returns=Bool)
 class IsChainedClone:
     def requires(node):
         return node is not None
@@ -209,7 +209,7 @@ class IsChainedClone:
         return is_chained(node)
 
 
-@contract(F + "_find_parent_let_declaration", props=["C17"], types=dict(node=TSNode), returns=TSNode)
+@contract(F + "_find_parent_let_declaration", props=["C17", "C11", "C13", "C19"], types=dict(node=TSNode), returns=TSNode)
 class FindParentLet:
     def requires(node):
         return node is not None
@@ -224,7 +224,7 @@ class FindParentLet:
         return ts_depth(current)
 
 
-@contract(F + "_find_parent_block", props=["C17"], types=dict(node=TSNode), returns=TSNode)
+@contract(F + "_find_parent_block", props=["C17", "C11", "C13", "C19"], types=dict(node=TSNode), returns=TSNode)
 class FindParentBlock:
     def requires(node):
         return node is not None
@@ -239,7 +239,7 @@ class FindParentBlock:
         return ts_depth(current)
 
 
-@contract(F + "_is_matching_identifier", props=["C17"], types=dict(node=TSNode, identifier=Str), returns=Bool)
+@contract(F + "_is_matching_identifier", props=["C17", "C11", "C13", "C19"], types=dict(node=TSNode, identifier=Str), returns=Bool)
 class IsMatchingIdentifier:
     def requires(node, identifier):
         return node is not None
@@ -248,7 +248,7 @@ class IsMatchingIdentifier:
         return is_ident(node, identifier)
 
 
-@contract(F + "_node_contains_identifier", props=["C17"], types=dict(node=TSNode, identifier=Str), returns=Bool)
+@contract(F + "_node_contains_identifier", props=["C17", "C11", "C13", "C19"], types=dict(node=TSNode, identifier=Str), returns=Bool)
 class NodeContainsIdentifier:
     def requires(node, identifier):
         return node is not None
@@ -257,7 +257,7 @@ class NodeContainsIdentifier:
         return contains_ident(node, identifier)
 
 
-@contract(F + "_identifier_used_after", props=["C17"],
+@contract(F + "_identifier_used_after", props=["C17", "C11", "C13", "C19"],
           types=dict(identifier=Str, let_node=TSNode, block_node=TSNode, found_let=Bool), returns=Bool)
 class IdentifierUsedAfter:
     def requires(identifier, let_node, block_node):
@@ -271,7 +271,7 @@ class IdentifierUsedAfter:
             used_after(rest, identifier, let_node.id, found_let)
 
 
-@contract(F + "RustCloneAnalyzer._get_clone_receiver_identifier", props=["C17"], types=dict(node=TSNode), returns=Opt(Str))
+@contract(F + "RustCloneAnalyzer._get_clone_receiver_identifier", props=["C17", "C11", "C13", "C19"], types=dict(node=TSNode), returns=Opt(Str))
 class GetCloneReceiverIdentifier:
     def requires(node):
         return node is not None
@@ -280,7 +280,7 @@ class GetCloneReceiverIdentifier:
         return receiver_identifier(node)
 
 
-@contract(F + "RustCloneAnalyzer._is_unnecessary_clone", props=["C17"], types=dict(node=TSNode), returns=Bool)
+@contract(F + "RustCloneAnalyzer._is_unnecessary_clone", props=["C17", "C11", "C13", "C19"], types=dict(node=TSNode), returns=Bool)
 class IsUnnecessaryClone:
     def requires(node):
         return node is not None
@@ -289,7 +289,7 @@ class IsUnnecessaryClone:
         return is_unnecessary(node)
 
 
-@contract(F + "RustCloneAnalyzer._classify_clone", props=["C17"], types=dict(node=TSNode, code=Str), returns=Opt(Str))
+@contract(F + "RustCloneAnalyzer._classify_clone", props=["C17", "C11", "C13", "C19"], types=dict(node=TSNode, code=Str), returns=Opt(Str))
 class ClassifyClone:
     def requires(node, code):
         return node is not None
